@@ -45,7 +45,11 @@ class Ctx:
 
     def finish(self, wall):
         cov = self.coverage
-        write_evidence(self.prop, self.tier, self.seed, "proof", cov, wall, len(self.violations), self.assumptions)
+        level = "proof" if cov.get("obligations", 0) > 0 else "translation_validation"
+        if level != "proof":
+            for k in ("obligations", "discharged"):
+                cov.pop(k, None)
+        write_evidence(self.prop, self.tier, self.seed, level, cov, wall, len(self.violations), self.assumptions)
         for key, path, has_input in self.violations:
             print("VIOLATION property=%s replay=%s%s" % (self.prop, path, "" if has_input else " no-failing-input-found"),
                   flush=True)
@@ -107,6 +111,16 @@ STAGES = {
 }
 
 
+# which certificate fields gate which property (ClosedChecker / NfaSem checkers, proved sound)
+CERT_PROPS = {
+    "C01": {"sound", "closed", "targets", "nranges", "dranges"},
+    "C02": {"closed", "targets", "nranges", "dranges"},
+    "C04": {"closed", "targets", "nranges", "dranges"},
+    "C05": {"closed"},
+    "C12": {"sound", "closed", "targets", "nranges", "dranges"},
+}
+
+
 def load_corpus(prop):
     out = []
     for p in sorted(glob.glob(os.path.join(VERIF, "harness", "corpus", "*.json"))):
@@ -163,6 +177,20 @@ def lexer_check(ctx, gen_opts, ndefs, ninputs, projs, ctors=(0,), clone=False, n
     log("%s: %d definitions (%d corpus), %d usable (%d model-rejected, %d not well-formed); model %.1fs, rustc+run %.1fs"
         % (prop, len(cases), ncorpus, len(usable), n_panic, n_nonwf, t_model, t_impl))
     stages = STAGES.get(prop, set())
+    ncert = 0
+    if prop in CERT_PROPS:
+        t0 = time.time()
+        lexcheck.run_certificates(usable)
+        for c in usable:
+            if c.certs is None:
+                continue
+            for cert in c.certs:
+                ncert += 1
+                bad = [k for k, v in cert.items() if k in CERT_PROPS[prop] and v == "0"]
+                if cert["kind"] == "ERROR" or bad:
+                    c.cert_problem = "certificate %s fails on the implementation's dumped automaton: %r" % (cert["kind"], cert)
+        log("%s: %d certificates evaluated on dumped automata (%.1fs)" % (prop, ncert, time.time() - t0))
+        ctx.coverage.setdefault("distribution", {})["certificates_checked"] = ncert
     evals, nontrivial, disagreements = 0, set(), 0
     dist = {"inputs": 0, "input_len_sum": 0, "runs_with_error": 0, "runs_with_rewind_possible": 0,
             "compile_errors": 0, "artifact_diffs": 0}
@@ -228,6 +256,8 @@ def lexer_check(ctx, gen_opts, ndefs, ninputs, projs, ctors=(0,), clone=False, n
                     ctx.violation("clone-log", dict(describe(c, i), original=I, clone=C))
             if extra:
                 extra(ctx, c, i, I, S, M)
+        if getattr(c, "cert_problem", None) and not art:
+            art = {"certificate": [c.cert_problem]}
         if art and not stream_viol:
             dist["artifact_diffs"] += 1
             # search: more inputs for this definition against Spec
